@@ -459,6 +459,11 @@ func (w *worker[T, JobType]) goEventLoop() {
 					w.sendError(err)
 				}
 			}
+
+			// barrier waiters are otherwise only woken by a completion; when the
+			// queue was emptied by skipped (cancelled) or purged jobs there is
+			// none, so the release condition is re-evaluated here
+			w.releaseWaiters(w.curProcessing.Load())
 		}
 	}(eventLoopSignal)
 }
